@@ -35,6 +35,9 @@ def preload():
     tables.get_buffer_type("Bed6Buffer")
 
 
+DNA_ENCODED = [False]
+
+
 def build_table(fmt, records):
     import bionumpy as bnp
     from bionumpy import datatypes as dt
@@ -52,6 +55,9 @@ def build_table(fmt, records):
             cols.append(np.array(vals, dtype=float))
         elif fl.type == List[int] or f == "quality" and fmt.name == "fastq":
             cols.append(RaggedArray([np.array(v, dtype=int) for v in vals]) if vals else RaggedArray(np.zeros(0, dtype=int), np.zeros(0, dtype=int)))
+        elif f == "sequence" and DNA_ENCODED[0] and vals and all(set(v) <= set("ACGT") for v in vals):
+            import bionumpy as _bnp
+            cols.append(_bnp.as_encoded_array(list(vals), _bnp.DNAEncoding))      # the caller holds its reads DNA-encoded
         else:
             cols.append(list(vals))
     return cls(*cols)
@@ -181,6 +187,7 @@ def run(ctx):
         fmt = FORMATS[fname]
         dtn, buffer, kinds = WRITE_SPECS[fname]
         recs = gen(fname, r, n)
+        DNA_ENCODED[0] = r.random() < 0.4
         t = build_table(fmt, recs)
         exp_recs = canonical_records(fmt, recs)
         header = ""
